@@ -3,21 +3,35 @@
    numbers stored by `switch`, and the shape of every character test. *)
 From LexVerif Require Import Base CharClass RangeMap Regex Nfa Dfa.
 
-(* CgCtx::new: states with exactly one predecessor are inlined *)
+(* n_arms_to: number of `match` arms in the code of [st] that lead to state s: one for all
+   character transitions, one for all range transitions, one for the "any" transition *)
+Definition is_target (t : trans) (s : nat) : bool :=
+  match t with TGoto n => n =? s | TAccept _ => false end.
+Definition n_arms_to (st : dstate trans) (s : nat) : nat :=
+  (if existsb (fun p => is_target (snd p) s) (d_chars st) then 1 else 0)
+  + (if existsb (fun r => is_target (r_val r) s) (d_ranges st) then 1 else 0)
+  + (match d_any st with Some t => if is_target t s then 1 else 0 | None => 0 end).
+
+(* CgCtx::new: a state is inlined when it has exactly one predecessor and exactly one arm of
+   that predecessor leads to it *)
+Definition inlined_pred (d : dfa trans) (p : nat * dstate trans) : bool :=
+  match d_preds (snd p) with
+  | [q] => n_arms_to (dget d q) (fst p) =? 1
+  | _ => false
+  end.
 Definition inlined_states (d : dfa trans) : list nat :=
-  map fst (filter (fun p => length (d_preds (snd p)) =? 1) (combine (seq 0 (length d)) d)).
+  map fst (filter (inlined_pred d) (combine (seq 0 (length d)) d)).
 
 (* CgCtx::renumber_state: subtract the number of inlined states below (binary search Ok|Err) *)
 Definition renumber (inl : list nat) (s : nat) : nat := s - length (filter (fun e => e <? s) inl).
 
-(* generate_state_arms: one arm per state that is not (single-predecessor and non-initial);
-   the pattern is `_` for the renumbered index n_states - n_inlined - 1, the number otherwise *)
+(* generate_state_arms: one arm per state that is not inlined; the pattern is `_` for the
+   renumbered index n_states - n_inlined - 1, the number otherwise *)
 Definition arms (d : dfa trans) : list (option nat * nat) :=
   let inl := inlined_states d in
   let last := length d - length inl - 1 in
   flat_map (fun p =>
-              let st := snd p in
-              if (length (d_preds st) =? 1) && negb (d_init st) then []
+              if inlined_pred d p then []
               else let k := renumber inl (fst p) in
                    [(if k =? last then None else Some k, fst p)])
            (combine (seq 0 (length d)) d).
